@@ -292,6 +292,11 @@ def check_comparison(prog, chk, body, field, variant, bb, idx, stmt, limit_tmp):
     ok_err = R.returns_err(body, region)
     lp = R.loop_containing(body, bb)
     leaves = lp is None or lp[0] not in region
+    if ok_variant and ok_err and not leaves:
+        # the error is built and returned on the failing edge, but the same blocks also lead back into the loop (the
+        # check lives in a helper whose Ok and Err exits merge before the caller tests the result): path-insensitive, no verdict
+        chk.undecided("A7.err", key, where, f"exceeding {field} builds and returns SvgdxError::{variant}, but the edge is not separable from the loop's continuation in the control-flow graph")
+        return
     chk.ob(
         ok_variant and ok_err and leaves,
         "A7.err",
@@ -305,7 +310,7 @@ def check_comparison(prog, chk, body, field, variant, bb, idx, stmt, limit_tmp):
         cpl = op_place(counter)
         ch = body.chase(counter)
         if ch[0] != "place" or ch[1][1]:
-            chk.bad("A7.pred", key + ":counter", where, "loop counter is not a plain local")
+            chk.undecided("A7.pred", key + ":counter", where, "the quantity compared with loop_limit is not a plain local counter (an iterator index, a field): what it counts is not decided")
             return
         cl = ch[1]
         defs = body.defs_of(cl[0])
